@@ -192,6 +192,9 @@ func strExpr(c *core.Ctx) string {
 	if c.Rng.Intn(8) == 0 { // results that look like numbers / booleans
 		return []string{"'00'+'7'", "'1.'+'10'", "'TR'+'UE'", "'${n.b}'+'.50'"}[c.Rng.Intn(4)]
 	}
+	if c.Rng.Intn(8) == 0 { // results that are text although they resemble literals of other notations
+		return []string{"'0x'+'ff00'", "'1_'+'000'", "'0b'+'101'", "'0o'+'17'", "'${n.b}'+'_'+'${n.b}'"}[c.Rng.Intn(5)]
+	}
 	switch c.Rng.Intn(3) {
 	case 0:
 		return "'${s.x}'+'-'+'${s.y}'"
@@ -225,6 +228,12 @@ func (p c18) expression(c *core.Ctx) {
 		e, ft = intExpr(c, 0), reflect.TypeOf(0)
 	case 1:
 		e, ft = boolExpr(c), reflect.TypeOf(false)
+		if c.Rng.Intn(4) == 0 {
+			// the expression's result is the TEXT true / false (a ternary choosing between two words): the field
+			// receives the result, which the binder converts like a literal written in the tag
+			e = e + "?'true':'false'"
+			c.Count("bool_fields_fed_by_text_results", 1)
+		}
 	case 2:
 		// floating-point results reach a float64 field with full precision
 		e, ft = []string{"${n.fa}+${n.fb}", "${n.a}/3", "${n.fa}*${n.b}", "${n.c}/${n.b}", "${n.big}/2", "${n.fa}-${n.fb}", "(${n.a}+1)/7"}[c.Rng.Intn(7)], reflect.TypeOf(float64(0))
@@ -253,6 +262,9 @@ func (p c18) expression(c *core.Ctx) {
 	want, derr := directEval(sub)
 	if ws, ok := want.(string); ok && derr == nil {
 		want = preR + ws + postR
+		if ft.Kind() == reflect.Bool && (ws == "true" || ws == "false") {
+			want = ws == "true"
+		}
 	}
 	hv, r := startHolder(c, []world.FieldSpec{{Name: "F", Type: ft, Tag: tag}}, env.doc)
 	c.Count("starts", 1)
